@@ -301,6 +301,11 @@ func (g *FnGen) execReturn(s *State, x *ssa.Return) {
 		for j, c := range env.conjuncts(e.E) {
 			g.addObl(s, "ensures", fmt.Sprintf("ensures[%s]@ret%d", clauseID(e, i, j), g.retN), e.Src, e.Where, c)
 		}
+		// a postcondition clause may rely on the clauses written before it (each is an obligation of its own,
+		// so nothing is assumed that is not also proved)
+		for _, c := range env.conjuncts(e.E) {
+			g.assume(s, c)
+		}
 	}
 	for i, e := range g.fc.IterEnsures {
 		for j, c := range env.conjuncts(e.E) {
@@ -546,6 +551,28 @@ func (g *FnGen) execAppend(s *State, com *ssa.CallCommon, res ssa.Value) {
 	g.vals[res] = &Val{term: r}
 	// bridge for E-matching: element references of the result in terms of those of the operand
 	g.defs = append(g.defs, fmt.Sprintf("(forall ((j Int)) (! (= (elemref %s j) (ite %s (elemref %s j) (rsub %s j))) :pattern ((elemref %s j))))", r, inplace, a, nr, r))
+	// derived element-level facts (consequences of the pointwise heap definitions above, stated so that one
+	// E-matching step relates an element of the result to the element it was copied from): the first len(a)
+	// elements are those of a, the following ones those of b, both as they were before the append
+	for _, pp := range g.primPaths(et) {
+		if pp.typ == nil {
+			continue
+		}
+		pathOf := func(base string) string {
+			for _, f := range pp.path {
+				base = refFld(base, f)
+			}
+			return base
+		}
+		nh := g.heap(s, pp.sort)
+		ph := g.heap(pre, pp.sort)
+		g.defs = append(g.defs, fmt.Sprintf("(forall ((j Int)) (! (=> (and (<= 0 j) (< j (s-len %s))) (= (select %s %s) (select %s %s))) :pattern ((elemref %s j))))",
+			a, nh, pathOf(app("elemref", r, "j")), ph, pathOf(app("elemref", a, "j")), r))
+		if static < 0 {
+			g.defs = append(g.defs, fmt.Sprintf("(forall ((j Int)) (! (=> (and (<= (s-len %s) j) (< j %s)) (= (select %s %s) (select %s %s))) :pattern ((elemref %s j))))",
+				a, newLen, nh, pathOf(app("elemref", r, "j")), ph, pathOf(app("elemref", b, app("-", "j", app("s-len", a)))), r))
+		}
+	}
 	// frame: in-place append writes into the backing array of the first argument
 	if g.fc != nil {
 		g.checkFrameCond(pre, app("s-arr", a), inplace, et, "append")
